@@ -1066,12 +1066,12 @@ package reftable
 //@   loop 1 invariant forall k int :: 0 <= k && k < len(m.pq.heap) ==> iref(m.pq.heap[k].rec) != iref(rec)
 
 //@ func (*RefRecord).IsDeletion
-//@   props C03 C07
+//@   props C03 C07 C01 C13
 //@   pure
 //@   ensures result == (r.Value == nil && r.TargetValue == nil && r.Target == "")
 
 //@ func (*LogRecord).IsDeletion
-//@   props C03 C07
+//@   props C03 C07 C01 C13
 //@   pure
 //@   ensures result == (l.New == nil && l.Old == nil && l.Name == "" && l.Email == "" && l.Time == 0 && l.TZOffset == 0 && l.Message == "")
 
